@@ -61,3 +61,175 @@ Proof.
   destruct (process_all_projects start a q 0 _ _ _ Ep Hb0) as (b1 & Hb1 & Hr).
   exists b1. split; [exact Hr|]. rewrite nth_error_market_set_time, Hb1. reflexivity.
 Qed.
+
+(** ** ... and that stand-alone run is an ordinary book history: a list of [set_time] and
+    [process_event] operations through [Book.run], to which every book-level theorem applies *)
+Fixpoint asset_ops (a : nat) (start i : N) (q : list mevent) : list op :=
+  match q with
+  | [] => []
+  | e :: r =>
+      OSetTime (start + i) ::
+      (if Nat.eqb (mev_asset e) a then [OEvent (mev_event e)] else []) ++ asset_ops a start (i + 1) r
+  end.
+
+Lemma bounded_set_time b t : bounded (set_time b t) = bounded b.
+Proof. reflexivity. Qed.
+
+Lemma book_event_bounded b ev b' : book_event b ev = Ok b' -> bounded b' = true.
+Proof.
+  unfold book_event, step. intros H. destruct (step_raw b (OEvent ev)) as [[b1 y]|]; [|discriminate]. cbn [rbind] in H.
+  destruct (bounded b1) eqn:E; [|discriminate]. cbn [rbind] in H. injection H as <-. exact E.
+Qed.
+
+Lemma book_event_is_step b ev b' : book_event b ev = Ok b' -> exists x, step b (OEvent ev) = Ok (b', x).
+Proof.
+  unfold book_event. intros H. destruct (step b (OEvent ev)) as [[b1 y]|]; [|discriminate]. cbn [rbind] in H.
+  injection H as <-. exists y. reflexivity.
+Qed.
+
+Theorem asset_run_is_run a start : forall q i b b',
+  bounded b = true -> asset_run a start i b q = Ok b' ->
+  run b (asset_ops a start i q) = Ok b' /\ bounded b' = true.
+Proof.
+  induction q as [|e r IH]; intros i b b' Hb H; cbn [asset_run asset_ops run] in *.
+  - injection H as <-. auto.
+  - assert (Hst : step b (OSetTime (start + i)) = Ok (set_time b (start + i), ONone)).
+    { unfold step. cbn [step_raw rbind]. rewrite bounded_set_time, Hb. reflexivity. }
+    rewrite Hst. destruct (Nat.eqb (mev_asset e) a).
+    + destruct (book_event (set_time b (start + i)) (mev_event e)) as [b1|] eqn:E; [|discriminate]. cbn [rbind] in H.
+      destruct (book_event_is_step _ _ _ E) as (x & Hx). cbn [app run]. rewrite Hx.
+      apply IH; [exact (book_event_bounded _ _ _ E) | exact H].
+    + cbn [app]. apply IH; [rewrite bounded_set_time; exact Hb | exact H].
+Qed.
+
+Theorem step_projects_to_runs L e g e' g' :
+  Forall (fun b => bounded b = true) (en_market e) ->
+  menv_step L e g = Ok (e', g') ->
+  exists start q g1, market_time (en_market e) = Ok start /\ shuffle (en_queue e) g = Some (q, g1) /\
+    forall a b, nth_error (en_market e) a = Some b ->
+      exists b1, run b (OResetTvol :: asset_ops a start 0 q) = Ok b1 /\
+                 nth_error (en_market e') a = Some (set_time b1 (start + en_step e)).
+Proof.
+  intros Hbd H. destruct (step_projects L e g e' g' H) as (start & q & g1 & Et & Es & Hp).
+  exists start, q, g1. repeat split; auto. intros a b Hb. destruct (Hp a b Hb) as (b1 & Hr & Hn).
+  rewrite Forall_forall in Hbd. pose proof (Hbd b (nth_error_In _ _ Hb)) as Hbb.
+  assert (Hb0 : bounded (reset_trade_vol b) = true).
+  { unfold bounded in *. cbn. apply andb_true_iff in Hbb. destruct Hbb as [Hbb _]. rewrite Hbb. reflexivity. }
+  destruct (asset_run_is_run a start q 0 _ _ Hb0 Hr) as [Hrun _].
+  exists b1. split; [|exact Hn]. cbn [run]. unfold step. cbn [step_raw rbind]. rewrite Hb0. exact Hrun.
+Qed.
+
+(** [run] and [run_outs] (the same history, results collected) end in the same book *)
+From Bourse Require Import Spec.RefBook Proofs.Refine Proofs.Volumes Proofs.Reload.
+
+Lemma run_has_outs : forall ops b b', run b ops = Ok b' -> exists xs, run_outs b ops = Ok (b', xs).
+Proof.
+  induction ops as [|o r IH]; intros b b' H; cbn [run run_outs] in *.
+  - injection H as <-. exists []. reflexivity.
+  - destruct (step b o) as [[b1 x]|]; [|discriminate]. cbn [rbind].
+    destruct (IH _ _ H) as (xs & Hx). rewrite Hx. cbn [rbind]. exists (x :: xs). reflexivity.
+Qed.
+
+(** so, for instance, priority (C01) holds asset by asset through a step: each asset's book after the
+    step abstracts to what the reference engine makes of that asset's own instructions *)
+Theorem step_refines_per_asset L e g e' g' :
+  Forall Inv (en_market e) -> Forall (fun b => bounded b = true) (en_market e) ->
+  Forall (fun ev => match ev with MModify _ _ (Some p) _ => p <= MAXP | _ => True end) (en_queue e) ->
+  menv_step L e g = Ok (e', g') ->
+  exists start q g1, market_time (en_market e) = Ok start /\ shuffle (en_queue e) g = Some (q, g1) /\
+    forall a b, nth_error (en_market e) a = Some b ->
+      exists b1 xs, ref_run_outs (abs b) (OResetTvol :: asset_ops a start 0 q) = Some (abs b1, xs) /\ Inv b1 /\
+                    nth_error (en_market e') a = Some (set_time b1 (start + en_step e)).
+Proof.
+  intros Hinv Hbd Hq H. destruct (step_projects_to_runs L e g e' g' Hbd H) as (start & q & g1 & Et & Es & Hp).
+  exists start, q, g1. repeat split; auto. intros a b Hb. destruct (Hp a b Hb) as (b1 & Hr & Hn).
+  destruct (run_has_outs _ _ _ Hr) as (xs & Hx).
+  rewrite Forall_forall in Hinv. pose proof (Hinv b (nth_error_In _ _ Hb)) as Hib.
+  assert (Hu : Forall op_u32 (OResetTvol :: asset_ops a start 0 q)).
+  { constructor; [exact I|].
+    assert (Hq' : Forall (fun ev => match ev with MModify _ _ (Some p) _ => p <= MAXP | _ => True end) q).
+    { pose proof (shuffle_is_permutation _ _ _ _ Es) as Pm. rewrite Forall_forall in *. intros x Hxin. apply Hq.
+      eapply Permutation.Permutation_in; [apply Permutation.Permutation_sym; exact Pm | exact Hxin]. }
+    clear - Hq'. generalize 0 as i. induction q as [|ev r IH]; intros i; cbn [asset_ops]; [constructor|].
+    inversion Hq' as [|? ? H1 H2]; subst. constructor; [exact I|]. apply Forall_app. split; [|apply IH; exact H2].
+    destruct (Nat.eqb (mev_asset ev) a); [|constructor]. constructor; [|constructor].
+    destruct ev as [x y|x y|x y [p|] nv]; cbn; exact H1 || exact I. }
+  destruct (run_inv_all _ _ _ _ Hib Hu Hx) as [R I1].
+  exists b1, xs. auto.
+Qed.
+
+(** ** [bounded] (the u32 volume counters did not overflow) holds of every book of every reachable
+    environment: each operation that can move a counter goes through [Book.step], which checks it *)
+From Bourse Require Import Proofs.MarketInv.
+
+Definition MBounded (m : market) : Prop := Forall (fun b => bounded b = true) m.
+
+Lemma step_bounded b o b' x : step b o = Ok (b', x) -> bounded b' = true.
+Proof.
+  unfold step. intros H. destruct (step_raw b o) as [[b1 y]|]; [|discriminate]. cbn [rbind] in H.
+  destruct (bounded b1) eqn:E; [|discriminate]. injection H as <- _. exact E.
+Qed.
+
+Lemma create_order_bounded b sd v tr p b' c : create_order b sd v tr p = (b', c) -> bounded b' = bounded b.
+Proof.
+  unfold create_order. intros H. destruct p as [p|]; [destruct (p mod b_tick b =? 0)|]; injection H as <- _; reflexivity.
+Qed.
+
+Lemma market_process_bounded m e m' : MBounded m -> market_process m e = Ok m' -> MBounded m'.
+Proof.
+  intros Hm H. unfold market_process in H. eapply (upd_nth_Forall (fun b => bounded b = true)); [|exact Hm|exact H].
+  intros b b' _ Hx. exact (book_event_bounded _ _ _ Hx).
+Qed.
+
+Lemma process_all_bounded start : forall q i m m', MBounded m -> process_all start i m q = Ok m' -> MBounded m'.
+Proof.
+  induction q as [|e r IH]; intros i m m' Hm H; cbn [process_all] in H; [injection H as <-; assumption|].
+  destruct (MAXT <? start + i); [discriminate|].
+  destruct (market_process (market_set_time m (start + i)) e) as [m1|] eqn:E; [|discriminate]. cbn [rbind] in H.
+  eapply IH; [|exact H]. eapply market_process_bounded; [|exact E].
+  unfold MBounded, market_set_time. rewrite Forall_map. exact Hm.
+Qed.
+
+Theorem menv_apply_bounded L e g o e' g' x :
+  MBounded (en_market e) -> menv_apply L e g o = Ok (e', g', x) -> MBounded (en_market e').
+Proof.
+  intros Hm H. destruct o; cbn [menv_apply] in H.
+  - unfold menv_place in H. destruct (nth_error (en_market e) a) as [b|] eqn:Hb; [|discriminate].
+    destruct (create_order b sd vol trader price) as [b' c] eqn:Hc. destruct c as [id|pp tt].
+    + destruct (upd_nth (en_market e) a (fun _ => Ok b')) as [m'|] eqn:Hup; [|discriminate]. cbn in H. injection H as <- _ _.
+      cbn [en_market push_event set_market].
+      eapply (upd_nth_Forall (fun b => bounded b = true)); [|exact Hm|exact Hup]. intros y y' _ Hy. injection Hy as <-.
+      rewrite (create_order_bounded _ _ _ _ _ _ _ Hc). unfold MBounded in Hm. rewrite Forall_forall in Hm. apply Hm. eapply nth_error_In; eassumption.
+    + cbn in H. injection H as <- _ _. exact Hm.
+  - injection H as <- _ _. exact Hm.
+  - injection H as <- _ _. exact Hm.
+  - destruct (menv_step L e g) as [[e1 g1]|] eqn:Es; [|discriminate]. cbn in H. injection H as <- _ _.
+    unfold menv_step in Es. destruct (market_time (en_market e)) as [start|]; [|discriminate]. cbn [rbind] in Es.
+    destruct (shuffle (en_queue e) g) as [[q g2]|]; [|discriminate].
+    destruct (process_all start 0 (map reset_trade_vol (en_market e)) q) as [m1|] eqn:Ep; [|discriminate]. cbn [rbind] in Es.
+    destruct (MAXT <? start + en_step e); [discriminate|].
+    destruct (all_l2 L (market_set_time m1 (start + en_step e))) as [l2|]; [|discriminate]. injection Es as <- _. cbn [en_market].
+    unfold MBounded, market_set_time. rewrite Forall_map. change (MBounded m1).
+    eapply process_all_bounded; [|exact Ep]. unfold MBounded. rewrite Forall_map.
+    eapply Forall_impl; [|exact Hm]. intros b Hb. unfold bounded in *. cbn. apply andb_true_iff in Hb. destruct Hb as [Hb _]. rewrite Hb. reflexivity.
+  - injection H as <- _ _. cbn [en_market set_market]. unfold MBounded. rewrite Forall_map. exact Hm.
+  - injection H as <- _ _. cbn [en_market set_market]. unfold MBounded. rewrite Forall_map. exact Hm.
+  - destruct (nth_error (en_market e) a) as [b|] eqn:Hb; [|discriminate].
+    destruct (step b o) as [[b' y]|] eqn:Es; [|discriminate]. cbn [rbind] in H.
+    destruct (upd_nth (en_market e) a (fun _ => Ok b')) as [m'|] eqn:Hup; [|discriminate]. cbn in H. injection H as <- _ _.
+    cbn [en_market set_market].
+    eapply (upd_nth_Forall (fun b => bounded b = true)); [|exact Hm|exact Hup]. intros z z' _ Hz. injection Hz as <-.
+    exact (step_bounded _ _ _ _ Es).
+  - injection H as <- _ _. cbn [en_market set_market]. unfold MBounded, market_set_time. rewrite Forall_map. exact Hm.
+  - injection H as <- _ _. cbn [en_market set_market]. unfold MBounded. rewrite Forall_map.
+    eapply Forall_impl; [|exact Hm]. intros b Hb. unfold bounded in *. cbn. apply andb_true_iff in Hb. destruct Hb as [Hb _]. rewrite Hb. reflexivity.
+Qed.
+
+Lemma market_new_bounded t0 : forall ticks tr m, market_new t0 ticks tr = Ok m -> MBounded m.
+Proof.
+  induction ticks as [|tk r IH]; intros tr m H; cbn [market_new] in H; [injection H as <-; constructor|].
+  destruct (book_new t0 tk tr) as [b|] eqn:Eb; [|discriminate]. cbn [rbind] in H.
+  destruct (market_new t0 r tr) as [m1|] eqn:Em; [|discriminate]. cbn [rbind] in H. injection H as <-.
+  constructor; [|eapply IH; exact Em].
+  unfold book_new in Eb. destruct (tk =? 0); [discriminate|]. injection Eb as <-. reflexivity.
+Qed.
